@@ -343,6 +343,27 @@ impl<'r> Gen<'r> {
                     G::PaddedBy(self.bx(d + 1, consuming), pad)
                 }
                 8..=10 if self.fam(2) => G::Or(self.bx(d + 1, consuming), self.bx(d + 1, consuming)),
+                11 if self.fam(2) && self.rng.chance(1, 5) => {
+                    // a BIG table of literals, as keyword / operator lexers have: 8-14 entries over two or
+                    // three symbols, so that many entries are prefixes of others (listed longest-first
+                    // most of the time, as such tables are written)
+                    let n = self.rng.range(8, 14) as usize;
+                    let k = self.rng.range(2, 3) as u8;
+                    let base = self.sym();
+                    let mut lits: Vec<Vec<u8>> = Vec::new();
+                    for _ in 0..n {
+                        let len = self.rng.range(1, 3);
+                        let mut l = Vec::new();
+                        for _ in 0..len {
+                            l.push((base + self.rng.below(k as u64) as u8) % self.cfg.nsym);
+                        }
+                        lits.push(l);
+                    }
+                    if self.rng.chance(3, 4) {
+                        lits.sort_by(|a, b| b.len().cmp(&a.len()));
+                    }
+                    G::Choice(lits.into_iter().map(|l| if l.len() == 1 { G::Just(l[0]) } else { G::JustSeq(l) }).collect())
+                }
                 11 if self.fam(2) => {
                     let n = self.rng.range(2, 4);
                     G::Choice((0..n).map(|_| self.gen(d + 1, consuming)).collect())
